@@ -14,6 +14,7 @@ from fractions import Fraction
 from vlib import common
 from checks import crcommon as cr
 from checks import coeftab
+from checks import polyread
 
 LEVEL = "proof"
 PID = "C04"
@@ -134,6 +135,7 @@ def run(ctx):
     broken = common.proof_stage(ctx, ["SoxrModel.Properties.C04", "SoxrModel.Properties.C04Coef"], ["C04", "C04Coef"])
     coeftab.run(ctx, broken, PID)
     exe = common.build_harness("crtrace", ["cr/trace.c"], "rel")
+    polyread.run(ctx, exe)
     rng = ctx.rng
     # ---- plans
     nplans = 1200 if ctx.quick else 40000
